@@ -643,3 +643,64 @@ func ruleR16_11(w *World, r *Report) {
 }
 
 func ruleR06_1full(w *World, r *Report) { ruleR06_1(w, r, false) }
+
+// R16.12 the encoding echo does not use what it could not decode or create (F56)
+func ruleR16_12(w *World, r *Report) {
+	u := w.Server()
+	if u == nil {
+		return
+	}
+	r.Rule("R16.12", "the encoding-echo RPC calls a method on the decoded operation only under a test that the decoder returned one, and converts the datatype it creates for a snapshot with the comma-ok form: a request it cannot decode is answered with an error, not by a panic in the gRPC handler goroutine (nothing recovers there)", 2)
+	fn := u.Fn(pService, "OrdaService", "TestEncodingOperation")
+	if fn == nil {
+		r.Lost("OrdaService.TestEncodingOperation")
+		return
+	}
+	n := 0
+	for _, c := range callsNamed(fn, "decodeModelOp") {
+		dec, ok := c.(*ssa.Call)
+		if !ok {
+			continue
+		}
+		forEachInstr(fn, func(in ssa.Instruction) {
+			use, ok := in.(*ssa.Call)
+			if !ok || !use.Call.IsInvoke() || stripIface(use.Call.Value) != ssa.Value(dec) {
+				return
+			}
+			n++
+			paths, okp := reachingLits(fn, nil, use)
+			good := okp && len(paths) > 0
+			for _, p := range paths {
+				g := false
+				for _, l := range p {
+					if isNilCheckOf(l, dec, false) {
+						g = true
+					}
+				}
+				good = good && g
+			}
+			r.Check(good, "TestEncodingOperation/decoded operation used", u.Pos(use.Pos()), "under decodedOp != nil",
+				"a method is called on the decoded operation on a path that did not test it for nil: decodeModelOp returns nil for an unknown operation type or a body that is not JSON, and the call panics in the gRPC handler goroutine - the request is never answered and the server process ends (F56)")
+		})
+	}
+	if sn := u.Fn(pService, "OrdaService", "testEncodingSnapshotOperation"); sn == nil {
+		r.Lost("OrdaService.testEncodingSnapshotOperation")
+	} else {
+		forEachInstr(sn, func(in ssa.Instruction) {
+			ta, ok := in.(*ssa.TypeAssert)
+			if !ok {
+				return
+			}
+			src, isCall := stripIface(ta.X).(*ssa.Call)
+			if !isCall || calleeName(src) != "CreateDatatype" {
+				return
+			}
+			n++
+			r.Check(ta.CommaOk, "testEncodingSnapshotOperation/created datatype converted", u.Pos(ta.Pos()), "comma-ok conversion",
+				"the datatype created for the echo is converted without the comma-ok form: CreateDatatype returns nil for an unknown datatype type (or a refused key), and the conversion panics in the gRPC handler goroutine (F56)")
+		})
+	}
+	if n < 2 {
+		r.Lost(fmt.Sprintf("R16.12 instances (found %d)", n))
+	}
+}
